@@ -168,7 +168,9 @@ class EnumType(ShapeCastable, py_enum.EnumMeta):
         return cls(Const(member.value, cls.as_shape()))
 
     def from_bits(cls, bits):
-        return cls(bits)
+        # `bits` is a bit pattern; members of an enumeration with a signed shape are looked up
+        # by their (possibly negative) value.
+        return cls(Const(bits, cls.as_shape()).value)
 
     def format(cls, value, format_spec):
         if format_spec != "":
